@@ -257,20 +257,31 @@ class Date:
 
         return self.__add__(other)
 
+    @property
+    def _us(self):
+        """Number of microseconds since the origin of MJD, in REF_SCALE
+
+        Comparisons are made on this integer. The conversion between time-scales
+        adds and removes offsets to a float number of seconds, so two dates
+        describing the same instant via two different time-scales may differ by
+        some 1e-11 s, which is sometimes enough to make their MJD differ.
+        """
+        return self._d * 86400000000 + round(self._s * 1e6)
+
     def __gt__(self, other):
-        return self._mjd > other._mjd
+        return self._us > other._us
 
     def __ge__(self, other):
-        return self._mjd >= other._mjd
+        return self._us >= other._us
 
     def __lt__(self, other):
-        return self._mjd < other._mjd
+        return self._us < other._us
 
     def __le__(self, other):
-        return self._mjd <= other._mjd
+        return self._us <= other._us
 
     def __eq__(self, other):
-        return self._mjd == other._mjd
+        return self._us == other._us
 
     def __repr__(self):  # pragma: no cover
         return f"<{self.__class__.__name__} '{self}'>"
@@ -287,7 +298,7 @@ class Date:
             return str(self)
 
     def __hash__(self):
-        return hash((self._d, self._s))
+        return hash(self._us)
 
     @classmethod
     def _convert_dt(cls, dt):
